@@ -2,7 +2,11 @@
 C14 — exception-flow skeleton of `list_programs` → `labelled_programs` → `TagDatabase.__init__`
 (`collect`) and of `cli_tag.main` (`tag`), AS WRITTEN NOW in /repo. Core Lean only.
 
-The externals are parameters returning `Except`, and the theorems quantify over ALL their behaviours:
+The externals are parameters returning `Except`. Only `clean` is genuinely adversarial in the theorems
+(it may do anything). For `parse` and `features` the theorems ASSUME, as explicit hypotheses, exactly what
+the code relies on (`ParseCaught`: `ast.parse` raises only instances of the two classes that are caught;
+`FeaturesTotal`: the feature search does not raise — DESIGN finding 17 was a failure of it); with these
+hypotheses "every file is reported" is the bookkeeping of the flow, not a statement about CPython:
   * `clean`    : `Cleanup.full_cleaning` for `--cleanup full` (regex passes + `tokenize.generate_tokens`),
                  the identity for `none` — since fix c7d362e wrapped in `safe_full_cleaning`, whose
                  catch-all handler returns the raw text;
